@@ -268,7 +268,7 @@ func c14Strip(src string) string {
 func C14(tier common.Tier) int {
 	run := common.NewRun("C14", tier, "exploration")
 	thorough := tier == "thorough"
-	run.SetRule("finite grid enumerated completely: a module mixing regular, in-package _test.go, external test package, *_gen.go, a legacy/ sub-package and a testdata package named explicitly, every file with annotations, @ignore comments and violations, x scan-tests {off,on} x exclude-paths {default, empty, _gen.go, 'legacy,_gen.go', ' legacy , ,_gen.go ', '_gen.go,zz_gen.go', 'legacy/zz,legacy', '_gen.go,_gen.go', 'testdata' given explicitly}; a flag is always accompanied by the opposite value in the environment variable x {flag, env} x both real drivers. Oracles per cell: (exact) diagnostics = want-markers whose own file and annotation-holding files are not excluded by the reference filter, TONL never in _test.go; (positional) no diagnostic in an excluded file; (differential) replacing every excluded file by its inert twin leaves the diagnostics unchanged. Non-trivial = a cell whose configuration excludes at least one file that carries wants.",
+	run.SetRule("finite grid enumerated completely: a module mixing regular, in-package _test.go, external test package, *_gen.go, a legacy/ sub-package and a testdata package named explicitly, every file with annotations, @ignore comments and violations, x scan-tests {off,on} x exclude-paths {default, empty, _gen.go, 'legacy,_gen.go', ' legacy , ,_gen.go ', '_gen.go,zz_gen.go', 'legacy/zz,legacy', '_gen.go,_gen.go', 'testdata' given explicitly, entries in another letter case than the paths}; a flag is always accompanied by the opposite value in the environment variable x {flag, env} x both real drivers. Oracles per cell: (exact) diagnostics = want-markers whose own file and annotation-holding files are not excluded by the reference filter, TONL never in _test.go; (positional) no diagnostic in an excluded file; (differential) replacing every excluded file by its inert twin leaves the diagnostics unchanged. Non-trivial = a cell whose configuration excludes at least one file that carries wants.",
 		"1 program x 2 x 9 configurations x {flag,env} x 2 drivers x {full, excluded files stripped}")
 	run.Assume("go list / go vet package selection is trusted; the scratch path contains no exclude entry")
 	drv.Binary()
@@ -290,7 +290,10 @@ func C14(tier common.Tier) int {
 			c14Cfg{scan, []string{"legacy/zz", "legacy"}, strp("legacy/zz,legacy")},
 			c14Cfg{scan, []string{"_gen.go"}, strp("_gen.go,_gen.go")},
 			// the built-in default given explicitly (as a flag it must still beat the variable)
-			c14Cfg{scan, []string{"testdata"}, strp("testdata")})
+			c14Cfg{scan, []string{"testdata"}, strp("testdata")},
+			// entries are matched as written: another letter case names another path (no file of the program matches these)
+			c14Cfg{scan, []string{"Legacy", "_GEN.go"}, strp("Legacy,_GEN.go")},
+			c14Cfg{scan, []string{"TestData", "_gen.go"}, strp("TestData,_gen.go")})
 	}
 	type cell struct {
 		cfg    c14Cfg
